@@ -14,24 +14,39 @@ def is_nan(b):
     return (b >> 52) & 0x7FF == 0x7FF and b & ((1 << 52) - 1) != 0
 
 
+def as_i32_of(b):
+    """int32 i with the same double bits, else None (python oracle)"""
+    import struct
+    x = struct.unpack(">d", struct.pack(">Q", b))[0]
+    if x != x or x in (float("inf"), float("-inf")):
+        return None
+    if x == int(x) and -2 ** 31 <= x <= 2 ** 31 - 1 and struct.unpack(">Q", struct.pack(">d", float(int(x))))[0] == b:
+        return int(x) & 0xFFFFFFFF
+    return None
+
+
 def spec(req):
     """independent statement of what the property demands for a request (python oracle)"""
+    import struct
     t = req.split()
     if t[0] == "f64":
         b = int(t[1], 16)
-        return "float %016x preds=float type=float" % (CANON if is_nan(b) else b)
+        c = CANON if is_nan(b) else b
+        x = struct.unpack(">d", struct.pack(">Q", c))[0]
+        a = as_i32_of(c)
+        return "float %016x preds=float type=float tb=%d asi32=%s" % (c, 1 if (x == x and x != 0) else 0, "-" if a is None else "%x" % a)
     if t[0] == "js":
         b = int(t[1], 16)
         return "number %016x" % (CANON if is_nan(b) else b)
     if t[0] == "i32":
-        return "int32 %x preds=int32 type=float" % int(t[1], 16)
+        return "int32 %x preds=int32 type=float tb=%d asi32=%x" % (int(t[1], 16), 1 if int(t[1], 16) else 0, int(t[1], 16))
     if t[0] == "bool":
-        return "boolean %s preds=boolean type=boolean" % t[1]
+        return "boolean %s preds=boolean type=boolean tb=%s asi32=-" % (t[1], t[1])
     if t[0] in ("null", "undefined"):
-        return "%s preds=%s type=%s" % (t[0], t[0], t[0])
+        return "%s preds=%s type=%s tb=0 asi32=-" % (t[0], t[0], t[0])
     if t[0] == "heap":
         code = {"object": 5, "string": 6, "symbol": 7, "bigint": 8}[t[1]]
-        return "%s preds=%s type=%s clone=%d drop=%d" % (t[1], t[1], t[1], code, code)
+        return "%s preds=%s type=%s tb=1 asi32=- clone=%d drop=%d" % (t[1], t[1], t[1], code, code)
     raise ValueError(req)
 
 
@@ -63,6 +78,11 @@ def requests(ck):
         reqs.append("i32 %x" % (1 << k))
         reqs.append("i32 %x" % ((1 << k) - 1))
         reqs.append("i32 %x" % ((-(1 << k)) & 0xFFFFFFFF))
+    import struct
+    for x in [0.0, -0.0, 1.0, -1.0, 2147483647.0, 2147483648.0, -2147483648.0, -2147483649.0, 0.5, 1e10, 4294967295.0, 123456.0, -7.0]:
+        reqs.append("f64 %016x" % struct.unpack(">Q", struct.pack(">d", x))[0])
+    for _ in range(300):
+        reqs.append("f64 %016x" % struct.unpack(">Q", struct.pack(">d", float((r() % (1 << 33)) - (1 << 32))))[0])
     reqs += ["bool 0", "bool 1", "null", "undefined"]
     for k in ("object", "string", "symbol", "bigint"):
         for _ in range(3):
